@@ -224,6 +224,14 @@ func (c *Ctx) idpValidate(reg registry, regOrder []string, a areq, now int64, de
 		if !found {
 			why = append(why, "selected endpoint "+loc+" is not registered for the issuer")
 		}
+		// which one: the requested index, else the requested URL, else the default, else the first browser-binding endpoint
+		if a.Issuer != nil {
+			if e, ok := reg[*a.Issuer]; ok && e.kind == "f" {
+				if want := specSelectACS(e.md, a); want != nil && (want.Location != loc || want.Binding != bnd || fmt.Sprint(want.Index) != f[3]) {
+					why = append(why, fmt.Sprintf("selected %s %s #%s, but the rule (index, else URL, else default, else first browser binding) selects %s %s #%d", bnd, loc, f[3], want.Binding, want.Location, want.Index))
+				}
+			}
+		}
 		if len(why) > 0 {
 			orc = "key=c05-guard " + strings.Join(why, "; ")
 		}
@@ -249,6 +257,43 @@ func (c *Ctx) idpValidate(reg registry, regOrder []string, a areq, now int64, de
 	toks = append(toks, encStr(a.Destination), encStr(ver), iiTok, encStr(a.ACSURL), encStr(a.ACSIndex))
 	c.count("c05-binding", map[bool]string{true: "POST", false: "GET-deflate"}[post])
 	c.emit("idpvalidate", toks, impl, orc)
+}
+
+// specSelectACS is the selection rule of the property, written from its text
+func specSelectACS(md mdEntity, a areq) *mdEndpoint {
+	var all []mdEndpoint
+	for _, d := range md.Descs {
+		all = append(all, d.ACS...)
+	}
+	if a.ACSIndex != "" {
+		for i := range all {
+			if fmt.Sprint(all[i].Index) == a.ACSIndex {
+				return &all[i]
+			}
+		}
+	}
+	if a.ACSURL != "" {
+		for i := range all {
+			if all[i].Location == a.ACSURL {
+				return &all[i]
+			}
+		}
+	}
+	if a.ACSIndex != "" || a.ACSURL != "" {
+		return nil
+	}
+	browser := func(b string) bool { return b == saml.HTTPPostBinding || b == saml.HTTPRedirectBinding }
+	for i := range all {
+		if all[i].IsDefault != nil && *all[i].IsDefault && browser(all[i].Binding) {
+			return &all[i]
+		}
+	}
+	for i := range all {
+		if browser(all[i].Binding) {
+			return &all[i]
+		}
+	}
+	return nil
 }
 
 var formActionRe = regexp.MustCompile(`<form method="post" action="([^"]*)"`)
